@@ -148,7 +148,7 @@ Section Walkers.
   Lemma freeze_for : forall B x e1 cls y body,
     freeze look B (EFor x e1 cls y body) =
     (p1 <- freeze look B e1 ;; r <- fzC (x :: snd p1) cls ;; pb <- freeze look (snd r) body ;;
-     Ok (EFor x (fst p1) (fst r) y (fst pb), B)).
+     Ok (EFor x (fst p1) (fst r) y (fst pb), snd p1)).
   Proof. reflexivity. Qed.
   Lemma freeze_switch : forall B e1 arms,
     freeze look B (ESwitch e1 arms) =
@@ -588,3 +588,26 @@ Section Good.
     destruct G as (G1 & G2 & G3 & G4). auto.
   Qed.
 End Good.
+
+(* the constant folding of the Call arm happens exactly for the builtin named "-" applied to exactly
+   one constant numeric argument *)
+Lemma fold_call_spec : forall f args,
+  (exists p a z, f = EFrozen (VPrim PSub p) /\ args = [a] /\ constant_value a = Some (VInt z) /\
+                 fold_call f args = EFrozen (VInt (- z))) \/
+  ((~ exists p a z, f = EFrozen (VPrim PSub p) /\ args = [a] /\ constant_value a = Some (VInt z)) /\
+   fold_call f args = ECall f args).
+Proof.
+  intros f args.
+  destruct f as [| | | | |fv| | | | | | | | | | | | | |];
+    try (right; split; [intros (p0 & a0 & z0 & E & _); discriminate|reflexivity]).
+  destruct fv as [| | | |pr prec| |];
+    try (right; split; [intros (p0 & a0 & z0 & E & _); discriminate|reflexivity]).
+  destruct pr; try (right; split; [intros (p0 & a0 & z0 & E & _); discriminate|reflexivity]).
+  destruct args as [|a [|b r]].
+  - right; split; [intros (p0 & a0 & z0 & _ & E & _); discriminate|reflexivity].
+  - cbn [fold_call]. destruct (constant_value a) as [w|] eqn:C.
+    + destruct w; try (right; split; [intros (p0 & a0 & z0 & _ & E & E2); inversion E; subst; congruence|reflexivity]).
+      left. exists prec, a, z. repeat split; auto.
+    + right; split; [intros (p0 & a0 & z0 & _ & E & E2); inversion E; subst; congruence|reflexivity].
+  - right; split; [intros (p0 & a0 & z0 & _ & E & _); discriminate|reflexivity].
+Qed.
